@@ -603,7 +603,63 @@ def run_C17(ctx):
             ctx.violation(b, {"kind": "enc-sweep", "what": b})
 
 
+def run_C19(ctx):
+    import re
+    consts = dict(BASE_CONSTS)
+    consts.update({"RunMode": "cases", "Seed": ctx.seed, "Rate": 4 if ctx.quick else 1})
+    r = run_tlc(f"{ctx.prop}-cases", "MC_Helpers", consts, invariants=["Inv"], postcondition="TraceAccepted", workers=10, timeout=2400)
+    if r.violation:
+        ctx.violation("MC_Helpers: a law of the specified helpers fails (memfrob involution / strcmp zero iff equal)", {"kind": "tlc", "output": r.violation[:3000]})
+    ctx.add_tlc("MC_Helpers (cases)", r)
+    recs = r.replay
+    ctx.nontrivial = len({json.dumps(x) for x in recs})
+    path = os.path.join(ctx.workdir, "helpers.ndjson")
+    open(path, "w").write("\n".join(json.dumps(x) for x in recs) + "\n")
+    rep_path = os.path.join(ctx.workdir, "helpers.report.json")
+    rv(["helpers", "--cases", path, "--report", rep_path], timeout=3000)
+    rep = json.load(open(rep_path))
+    ctx.evaluations += rep["records"]
+    ctx.traces += rep["pass"]
+    for s_ in rep["samples"]:
+        ctx.sample(s_)
+    for f in rep["failures"]:
+        ctx.violation(f["reason"], {"kind": "helper", "record": f["record"]})
+    # recorded sqrti / rand results validated by the specification's predicates
+    obs = os.path.join(ctx.workdir, "observed.ndjson")
+    rv(["helpers", "--observe", "--seed", str(ctx.seed), "--n", str(300 if ctx.quick else 20000), "--out", obs], timeout=3000)
+    lines = open(obs).read().splitlines()
+    attempt = 0
+    validated = 0
+    while lines and attempt < 6:
+        attempt += 1
+        cur = os.path.join(ctx.workdir, f"observed.try{attempt}.ndjson")
+        open(cur, "w").write("\n".join(lines) + "\n")
+        c2 = dict(consts)
+        c2["RunMode"] = "trace"
+        rr = run_tlc(f"{ctx.prop}-trace-{attempt}", "MC_Helpers", c2, invariants=["Inv"], postcondition="TraceAccepted", workers=1,
+                     timeout=2400, env={"TRACE": cur}, expect_violation=True)
+        ctx.states += rr.distinct
+        ctx.transitions += rr.generated
+        m = re.search(r'<<"TRACE-ACCEPTED", (\d+)>>', rr.out)
+        if m:
+            validated += int(m.group(1))
+            break
+        m = re.search(r'<<"TRACE-REJECTED", (\d+), (\d+)>>', rr.out)
+        if not m:
+            raise ToolError("MC_Helpers trace mode failed:\n" + rr.out[-2000:])
+        pos = int(m.group(1))
+        ev = json.loads(lines[pos - 1])
+        ctx.violation(f"{ev['f']} result not admitted by Helpers.tla: args {ev['args']} -> {ev['ret']} (returned: {ev['ok']})", {"kind": "helper-obs", "event": ev})
+        validated += pos - 1
+        lines = lines[:pos - 1] + lines[pos:]
+    ctx.traces += validated
+    ctx.evaluations += validated
+    ctx.extra["sqrti_rand_results_validated"] = validated
+
+
 CHECKS = {
+    "C19": {"level": "model_checking", "run": run_C19, "assumptions": ASSUME_COMMON + ["stdout of bpf_trace_printf captured through a pipe on fd 1"],
+            "rule": "MC_Helpers: gather_bytes on 10 boundary words^5 (sampled), memfrob on every length 0..64 at 5 offsets of a canary-surrounded buffer (once and twice), strcmp on all ordered pairs of 16 strings incl. prefixes and bytes >= 0x80 plus null pointers, bpf_trace_printf with 16^k-1, 16^k, 16^k+1 (k = 0..16) in each printed position (returned = bytes printed = specified); sqrti at k^2, k^2+-1 around powers of two and random, rand on boundary (min,max) pairs incl. max = 2^64-1, validated by TLC against SqrtOk / RandOk; distinct by case"},
     "C17": {"level": "model_checking", "run": run_C17, "assumptions": ASSUME_COMMON,
             "rule": "MC_Isa: slots varying each byte position over all 256 values in 3 contexts (opcode, register byte, 4 immediate lanes) and the two offset bytes over all 65,536 values; invariant Encode(Decode(s)) = s and Decode(Encode(Decode(s))) = Decode(s); replayed through Insn::to_array, Insn::to_vec, get_insn at indices 0/1/7/1000, to_insn_vec; every builder constructor x Source x Arch x MemSize x Cond x Endian x boundary fields against Isa!Encode, Insn::to_array and (where a mnemonic exists) Asm / assemble; distinct by slot / constructor+fields"},
     "C13": {"level": "model_checking", "run": run_C13, "assumptions": ASSUME_COMMON + ["the harness's renderer (tokens -> text) is the only concrete-syntax step"],
@@ -649,6 +705,13 @@ def replay(prop, path):
         tmp = os.path.join(WORK, "replay_one.ndjson")
         open(tmp, "w").write(json.dumps(rec["record"]) + "\n")
         rv(["texts", "--cases", tmp, "--report", os.path.join(WORK, "replay_one.report.json")], check=False)
+        rep = json.load(open(os.path.join(WORK, "replay_one.report.json")))
+        print(json.dumps([f["reason"] for f in rep["failures"]] or "agrees with the specification", indent=1)[:3000])
+        return 1 if rep["fail"] else 0
+    if kind == "helper":
+        tmp = os.path.join(WORK, "replay_one.ndjson")
+        open(tmp, "w").write(json.dumps(rec["record"]) + "\n")
+        rv(["helpers", "--cases", tmp, "--report", os.path.join(WORK, "replay_one.report.json")], check=False)
         rep = json.load(open(os.path.join(WORK, "replay_one.report.json")))
         print(json.dumps([f["reason"] for f in rep["failures"]] or "agrees with the specification", indent=1)[:3000])
         return 1 if rep["fail"] else 0
@@ -768,5 +831,10 @@ MANIFEST_TEXT.update({
     "C17": {"technique": "TLA+ slot encoding (Isa.tla) checked inverse by TLC per field exhaustively; every slot and builder constructor replayed through the public encoders/decoders",
             "text": "Per-field exhaustive: each byte position of the slot takes all values (offsets all 65,536) with the other fields on boundaries, TLC checks Encode and Decode inverse on each and the harness checks that both encoders, the decoder at several indices, the builder and the assembler agree with it; the thorough tier sweeps all 2^32 immediates in Rust.",
             "note": NOTE_COMMON + " Fields are exhaustive one at a time (the encoding is byte-wise), not in the full 2^64 product."},
+})
+MANIFEST_TEXT.update({
+    "C19": {"technique": "TLA+ helper functions (Helpers.tla) evaluated by TLC on boundary cases and replayed; recorded sqrti/rand results validated by TLC predicates",
+            "text": "gather_bytes, memfrob, strcmp and the printed length are functions in the specification; TLC enumerates boundary arguments (checking memfrob's involution and strcmp's zero-iff-equal law in the model) and the real helpers must return exactly those results and touch exactly those bytes; sqrti and rand are relations (floating-point rounding, randomness) so their recorded results are validated against the specified predicates.",
+            "note": NOTE_COMMON},
 })
 NOT_APPLICABLE = {}
